@@ -222,10 +222,12 @@ impl Buildinfo {
 
     /// Set the build environment
     pub fn set_environment(&mut self, env: std::collections::HashMap<String, String>) {
-        let mut s = String::new();
-        for (key, value) in env {
-            s.push_str(&format!("{}={}\n", key, value));
-        }
+        // One variable per line; a trailing newline would add a whitespace-only line
+        let s = env
+            .iter()
+            .map(|(key, value)| format!("{}={}", key, value))
+            .collect::<Vec<_>>()
+            .join("\n");
         self.0.set("Environment", &s);
     }
 
